@@ -71,9 +71,7 @@ def cli_case(case, env):
                 seen += 1
                 if seen == n:
                     cut_line = lno
-            if cut_line is not None and seen > n or (cut_line is not None and e["k"] != "M" and lno > cut_line + case["after"]):
-                if lno > cut_line + case["after"]:
-                    break
+            # after the N-th matching line only its trailing context is printed
             if cut_line is not None and lno > cut_line + case["after"]:
                 break
             b = unesc(e["bytes"])
@@ -106,9 +104,9 @@ def cli_case(case, env):
 def check(tier, seed, t0):
     common.build_harness()
     common.build_rg()
-    total = 200 if tier == "quick" else 6000
+    total = 1000 if tier == "quick" else 20000
     parts = [("lib", common.run_rgmon("c16", tier, seed)),
-             ("cli", common.run_cli_cases("c03", cli_case, seed, "c16cli", total, 25 if tier == "quick" else 100))]
+             ("cli", common.run_cli_cases("c03", cli_case, seed, "c16cli", total, 63 if tier == "quick" else 200))]
     if tier == "thorough":
         import sanitize
         parts.append(("miri", sanitize.miri_leg("C16", 2)(tier, seed)))
